@@ -91,6 +91,8 @@ def max_ulps(a, b, scale, bits=52):
     a, b = a[~na], b[~nb]              # both runs blew up at the same places: the relation holds (such runs are unstable
     #                                    scheme combinations, e.g. the centered flux; positivity / finiteness is C10's business)
     d = float(np.max(np.abs(a - b))) if a.size else 0.0
+    if not np.isfinite(scale):         # the caller's scale was taken over entries that are non-finite in both runs
+        scale = max(float(np.max(np.abs(a))) if a.size else 0.0, float(np.max(np.abs(b))) if b.size else 0.0, 1e-300)
     return core.ulps(d, 0.0, scale, bits) if d > 0 else 0
 
 
@@ -588,14 +590,18 @@ def rows2d_cases(rnd, tier):
         flux = rnd.choice(["centered", "hlle"])
         recon = rnd.choice([("e1", None), ("k", -1.0), ("k", 1.0 / 3.0), ("k", 0.0), ("k", 1.0)])
         gam = rnd.choice([1.4, 5.0 / 3.0])
-        kindbc = rnd.choice(["per", "sym", "duct", "sup"])
+        kindbc = rnd.choice(["per", "sym", "duct", "sup", "duct", "tcud"])
+        # inlet parameters of every regime: total pressure well above, close to, and BELOW the interior pressure (a blocked
+        # inlet: the 1D condition clamps the Mach number to zero, the 2D one has to do the same), several total temperatures
+        ptin, rtin, pout = rnd.choice([1.4, 1.4, 1.02, 0.8, 3.0]), rnd.choice([1.0, 0.8, 1.3]), rnd.choice([1.0, 0.9, 1.15])
         b1 = {"per": ({"type": "per"}, {"type": "per"}), "sym": ({"type": "sym"}, {"type": "sym"}),
-              "duct": ({"type": "insub", "ptot": 1.4, "rttot": 1.0}, {"type": "outsub", "p": 1.0}),
-              "sup": ({"type": "insup", "ptot": 2.8, "rttot": 1.0, "p": 1.0}, {"type": "outsup"})}[kindbc]
+              "duct": ({"type": "insub", "ptot": ptin, "rttot": rtin}, {"type": "outsub", "p": pout}),
+              "tcud": ({"type": "outsub", "p": pout}, {"type": "insub", "ptot": ptin, "rttot": rtin}),      # flow towards -x / -y
+              "sup": ({"type": "insup", "ptot": 2.8 * rnd.choice([1.0, 1.5]), "rttot": rtin, "p": 1.0}, {"type": "outsup"})}[kindbc]
         side = rnd.choice([{"type": "per"}, {"type": "sym"}])
         rho1 = np.array([rnd.uniform(0.9, 1.1) for _ in range(nline)])
         p1 = np.array([rnd.uniform(0.9, 1.1) for _ in range(nline)])
-        u1 = np.array([rnd.uniform(0.2, 0.6) for _ in range(nline)]) * (3.5 if kindbc == "sup" else 1.0)
+        u1 = np.array([rnd.uniform(0.2, 0.6) for _ in range(nline)]) * (3.5 if kindbc == "sup" else -1.0 if kindbc == "tcud" else 1.0)
         try:
             if along_x:
                 bc = dict(left=b1[0], right=b1[1], bottom=side, top=side)
@@ -621,7 +627,8 @@ def rows2d_cases(rnd, tier):
                 line = (lambda g: g[j, :]) if along_x else (lambda g: g[:, j])      # noqa: E731
                 worst = max(worst, max_ulps(line(G[0]), R1[0], sc), max_ulps(line(normal), R1[1], sc), max_ulps(line(G[3]), R1[2], sc))
             recs.append(tok2(rows=worst, transverse=int(np.sum(transverse != 0.0)), nx=nx, ny=ny, flux=flux, recon=str(recon),
-                             bc=kindbc + "/" + side["type"], along="x" if along_x else "y"))
+                             bc=kindbc + "/" + side["type"], along="x" if along_x else "y",
+                             regime="blocked" if kindbc in ("duct", "tcud") and ptin < 1.0 else ""))
         except Exception as ex:
             recs.append(O.raised_record(ex, nx=nx, ny=ny, flux=flux, recon=str(recon), bc=kindbc))
     return recs
@@ -1174,20 +1181,40 @@ def source_cases(rnd, tier):
         shape = rnd.choice(["state", "position", "const", "tabulated", "tabulated"])
         tables = {}
 
+        form = ["closure", "default", "object", "partial", "method"][(c // 3) % 5]     # how the user wrote the callable
+
         def mk(i):
-            def src(x, q):
+            def body(x, q, k):
                 calls.append((i, np.array(x, dtype=float).copy(), [np.array(d, dtype=float).copy() for d in q]))
                 if shape == "state":
-                    return coefs[i] * q[(i + 1) % neq] * (1.0 + x)
+                    return k * q[(i + 1) % neq] * (1.0 + x)
                 if shape == "position":
-                    return coefs[i] * np.sin(x) + 0.0 * q[0]
+                    return k * np.sin(x) + 0.0 * q[0]
                 if shape == "tabulated":        # a profile computed once and returned (the SAME array object) at every call
                     if i not in tables:
-                        tables[i] = coefs[i] * (1.0 + np.cos(x))
+                        tables[i] = k * (1.0 + np.cos(x))
                         tables[(i, "copy")] = tables[i].copy()
                     return tables[i]
-                return coefs[i] + 0.0 * x
-            return src
+                return k + 0.0 * x
+            if form == "default":               # the loop-binding idiom (lambda x, q, k=k: ...): a THIRD positional parameter
+                def src(x, q, k=coefs[i]):
+                    return body(x, q, k)
+                return src
+            if form == "partial":
+                import functools
+                return functools.partial(lambda k, x, q: body(x, q, k), coefs[i])
+            if form in ("object", "method"):
+                class _Src:
+                    def __init__(self, k):
+                        self.k = k
+
+                    def __call__(self, x, q):
+                        return body(x, q, self.k)
+
+                    def value(self, x, q):
+                        return body(x, q, self.k)
+                return _Src(coefs[i]) if form == "object" else _Src(coefs[i]).value
+            return lambda x, q: body(x, q, coefs[i])
         srcs = [mk(i) if subset[i] else None for i in range(neq)]
         bcl, bcr = rnd.choice([({"type": "per"}, {"type": "per"}), ({"type": "sym"}, {"type": "sym"})])
         section = None
